@@ -398,7 +398,7 @@ func (r *c11Runner) mutate(f []string) string {
 		if cp, err := c11Store(e, r.stores, c).LoadCheckpoint(); err == nil {
 			hw = cp.HW
 		}
-		if th > hw {
+		if c == 3 && th > hw {
 			return "guard:above-hw"
 		}
 		return c11Err(c11Store(e, r.stores, c).AdoptRetentionBoundary(ctx, th, "c"))
@@ -586,6 +586,52 @@ func (r *c11Runner) Step(op string) string {
 		again, _, err := c11Export(r.dst, r.cuts)
 		same := err == nil && bytes.Equal(again, r.stream)
 		return fmt.Sprintf("ok ch=%d msgs=%d maxid=%d same=%v # %s", stats.ChannelCount, stats.MessageCount, stats.MaxMessageID, same, c11Dump(r.dst))
+	case "pimport":
+		// pimport : on a fresh target PROBE every channel first (acquire the lease, read LEO, release it — the
+		// released entry may stay cached), then restore, then — on the SAME MessageDB instance, no reopen — read
+		// LEO of every cut channel and append one strict record to every plain cut channel.
+		if len(f) != 1 {
+			return "bad-op"
+		}
+		if r.stream == nil {
+			return "no-stream"
+		}
+		r.freshDst()
+		for c := 1; c <= 3; c++ {
+			cache := map[int]*message.ChannelStore{}
+			_, _ = c11Store(r.dst, cache, c).LEOWithError()
+			_ = cache[c].Close()
+		}
+		if _, err := c11Import(r.dst, "reader", r.stream); err != nil {
+			return c11Err(err) + " # " + c11Dump(r.dst)
+		}
+		var leos, apps []string
+		for _, cut := range r.cuts {
+			c := 0
+			for i, k := range c11Keys {
+				if string(cut.Key) == k {
+					c = i + 1
+				}
+			}
+			cache := map[int]*message.ChannelStore{}
+			st := c11Store(r.dst, cache, c)
+			leo, err := st.LEOWithError()
+			if err != nil {
+				leos = append(leos, fmt.Sprintf("%d:err", c))
+			} else {
+				leos = append(leos, fmt.Sprintf("%d:%d", c, leo))
+			}
+			if c != 3 {
+				base, err := st.Append(c11Records(c, []c11Rec{{id: uint64(900000 + c), pay: 1}}, 0))
+				if err != nil {
+					apps = append(apps, fmt.Sprintf("%d:%s", c, c11Err(err)))
+				} else {
+					apps = append(apps, fmt.Sprintf("%d:%d", c, base))
+				}
+			}
+			_ = st.Close()
+		}
+		return fmt.Sprintf("ok leo=%s app=%s # %s", strings.Join(leos, ","), strings.Join(apps, ","), c11Dump(r.dst))
 	case "corrupt":
 		if len(f) != 5 || (f[1] != "reader" && f[1] != "bytes") {
 			return "bad-op"
